@@ -330,9 +330,12 @@ func parseKeyValuePairs(remainder []byte, map_values MappingValues, errs []error
 	encounteredKeysMap := map[string]bool{}
 	pairCount := 0
 	previousLength := len(remainder)
+	// A length mismatch reported by the caller means the body is known to be
+	// truncated or over-long; only then is a short tail skipped quietly.
+	lengthMismatch := len(errs) > 0
 
 	for {
-		if shouldStopLoop(pairCount, remainder, previousLength) {
+		if shouldStopLoop(pairCount, remainder, lengthMismatch) {
 			errs = appendMaxPairsError(errs, pairCount)
 			break
 		}
@@ -392,8 +395,11 @@ func logKeyValuePairsResult(pairCount, errCount, remainderLen int) {
 }
 
 // shouldStopLoop checks whether the parsing loop should terminate due to
-// exceeding the maximum pair count or insufficient data.
-func shouldStopLoop(pairCount int, remainder []byte, previousLength int) bool {
+// exceeding the maximum pair count or insufficient data. Bytes that remain inside
+// a body of the declared length are always handed to the pair parser, so that a
+// short final pair (e.g. a one-byte key with an empty value) is parsed and stray
+// bytes are reported instead of being dropped.
+func shouldStopLoop(pairCount int, remainder []byte, lengthMismatch bool) bool {
 	if pairCount >= MAX_MAPPING_PAIRS {
 		log.WithFields(logger.Fields{
 			"at":         "(Mapping) Values",
@@ -403,7 +409,13 @@ func shouldStopLoop(pairCount int, remainder []byte, previousLength int) bool {
 		}).Error("mapping format violation")
 		return true
 	}
-	return !hasMinimumBytesForKeyValuePair(remainder)
+	if len(remainder) == 0 {
+		return true
+	}
+	if lengthMismatch {
+		return !hasMinimumBytesForKeyValuePair(remainder)
+	}
+	return false
 }
 
 // checkForwardProgress detects infinite loops by verifying the parser consumes bytes
